@@ -118,6 +118,26 @@ pub fn cases(seed: u64, n_random: usize) -> Vec<Case> {
             }
         }
     }
+    // the producer is not an ancestor of delta but a neighbour in the process table (`git show REV:file |
+    // wrapper`, the wrapper starting delta): a pid namespace of our own makes the layout exact; between
+    // the producer and delta the pid space has a hole or not, depending on whether a short-lived helper
+    // has already exited - the answer must be the same
+    let pidns_ok = std::process::Command::new("unshare").args(["-fp", "--mount-proc", "/bin/true"]).stdin(std::process::Stdio::null()).stdout(std::process::Stdio::null()).stderr(std::process::Stdio::null()).status().map(|s| s.success()).unwrap_or(false);
+    if !pidns_ok {
+        eprintln!("NOTE: pid namespaces are not available here (unshare -fp --mount-proc failed): the neighbour-producer cases are left out");
+    }
+    for variant in ["helper-alive", "helper-gone"] {
+        if !pidns_ok {
+            break;
+        }
+        for delay in [0i64, 700] {
+            let mut spec = base(vec!["--no-gitconfig".into(), "--width".into(), "100".into(), "--paging".into(), "never".into()]);
+            spec.stdin = show_input.to_string().into();
+            spec.pidns = Some(variant.to_string());
+            spec.plan.scan_delay_ms = delay;
+            out.push(Case { name: format!("producer is a neighbour, not an ancestor (pid namespace, {}), scan takes {} ms", variant, delay), spec, expect_exit: 0, tokens: vec![900, 901], group: "pidns".to_string(), must_highlight: true });
+        }
+    }
     // delta launches a command whose output it does not parse as anything special (`delta git status`,
     // `delta git ls-files`, ...): nothing is published for such a command, and the lines still go
     // through handlers that ask for the calling process - the answer must come from somewhere
@@ -310,6 +330,7 @@ pub fn main_c20(env: &Env, tier: &str, seed: u64, replay: Option<&str>) -> i32 {
     ev.rule = "E1 part: one evaluation = one execution of the real binary (real main(), real background thread, real scan of the process table). (a) arguments that look like launchable commands (rg, git, ...) in positions where they are option values or file operands: termination with the expected status and complete rendering; (b) delta started as the child of a process whose command line is `git show HEAD:file` / `git blame file` / `git grep ..` (a copy of /bin/sh under the name git), with the background scan ending before or 900 ms after the first queries (real sleep injected by the shim at the scan's first read) and the input delivered at once or in small chunks: the rendering must be identical for every timing and must show that the caller was recognised; (c) the same with a fault in the scan itself: reads of /proc/<pid>/cmdline by the scanning thread return nothing (zombie, exited process) for every process / every process but delta's parent / only the parent, or fail with ESRCH: delta must terminate and render everything, and with a readable parent give the same rendering as without the fault. distinct_nontrivial = distinct (argument pattern, hash seed, delivery schedule) cases.".into();
     ev.counters.insert("fault_fired.scan_cmdline_empty_or_esrch_runs".into(), SCAN_FAULT_RUNS.load(std::sync::atomic::Ordering::Relaxed));
     ev.counters.insert("cases_child_of_git_with_scan_delay".into(), cs.iter().filter(|c| c.group.starts_with("piped-")).count() as u64);
+    ev.counters.insert("cases_neighbour_producer_in_pid_namespace".into(), cs.iter().filter(|c| c.spec.pidns.is_some()).count() as u64);
     ev.counters.insert("cases_scan_fault".into(), cs.iter().filter(|c| c.spec.plan.scan_cmdline > 0).count() as u64);
     ev.violations = reported as u64;
     ev.samples = cs.iter().take(3).map(|c| json!({"name": c.name, "args": c.spec.args})).collect();
